@@ -112,6 +112,7 @@ structure Skeleton where
   reqResolveErrSetErr        : Bool
   reqCallViaUtilsCall        : Bool  -- handler invoked through utils.Call (recover)
   reqCallErrSetErr           : Bool
+  reqHandlerRecovers         : Bool  -- (repaired tree) the handler goroutine has a deferred recover → setErr, so panics while BUILDING the response (user `Error()` methods, result-shape assertions) end the link, not the process
   reqResponseCallIsReqCall   : Bool  -- every Response literal has Call: req.Call
   reqResponseCount           : Nat   -- number of Response literals (5)
   reqRespShapesOk            : Bool  -- per-branch Value/Err as documented (see extractor)
